@@ -151,6 +151,26 @@ func init() {
 			fr.i.ps.covers[a[0].(string)]++
 			return nil
 		},
+		// verifPopDialect(conn, name): gives a model *pop.Connection a dialect
+		// whose Name() is name (pop's dialect interface cannot be implemented outside pop)
+		"verifPopDialect": func(fr *frame, a []value) value {
+			itf := a[0].(iface)
+			st := itf.t.(*types.Pointer).Elem().Underlying().(*types.Struct)
+			name := a[1].(string)
+			for k := 0; k < st.NumFields(); k++ {
+				if st.Field(k).Name() == "Dialect" {
+					nt := &nativeType{name: "pop.dialect(" + name + ")", call: func(i *interpreter, fr *frame, method string, args []value) value {
+						if method == "Name" {
+							return name
+						}
+						i.unsupported("pop dialect method %s", method)
+						return nil
+					}}
+					(*itf.v.(*value)).(structure)[k] = iface{t: nt, v: &nativeObj{kind: "dialect"}}
+				}
+			}
+			return nil
+		},
 		"verifTag": func(fr *frame, a []value) value {
 			fr.i.ps.tag = fr.i.concreteString(a[0], "tag")
 			return nil
